@@ -9,7 +9,9 @@ import vlib
 from vlib import Infra, log
 
 RACE_RE = re.compile(r"WARNING: DATA RACE")
-FATAL_RE = re.compile(r"fatal error: concurrent map (read and map write|writes|iteration and map write)")
+FATAL_RE = re.compile(r"fatal error: (concurrent map (read and map write|writes|iteration and map write)"
+                      r"|sync: (unlock of unlocked mutex|Unlock of unlocked RWMutex|RUnlock of unlocked RWMutex|inconsistent mutex state)"
+                      r"|all goroutines are asleep - deadlock!)")
 
 
 def styles_phase(ctx):
@@ -109,14 +111,17 @@ def _library_panic(out):
 
 
 def _library_hang(out):
-    """The watchdog's goroutine dump shows a goroutine that waits (for a lock, a channel, a condition) with a
-    frame of the library on its stack."""
+    """The watchdog's goroutine dump shows a goroutine that is inside the library (waiting for a lock that is never
+    released, or spinning): on its stack the first frame that is the library's or the driver's is the library's."""
     dump = out[out.index("vdrive: HANG"):]
     for g in dump.split("\n\ngoroutine ")[1:]:
-        head = g.split("\n", 1)[0]
-        waiting = any(w in head for w in ("semacquire", "sync.Mutex.Lock", "sync.RWMutex", "chan receive", "chan send", "select", "sync.Cond.Wait", "sync.WaitGroup.Wait"))
-        if waiting and "go.pennock.tech/tabular" in g.split("created by")[0]:
-            return True
+        for ln in g.split("created by")[0].split("\n")[1:]:
+            if ln.startswith("\t"):
+                continue
+            if ln.startswith("go.pennock.tech/tabular"):
+                return True
+            if ln.startswith("main."):
+                break
     return False
 
 
@@ -144,6 +149,9 @@ def _registry_run(ctx, vdr, d, inp, tag, need=("reg.named", "reg.list", "reg.reg
     out = p.stdout or ""
     reports, lib = _library_race(out)
     if p.returncode != 0:
+        if lib:
+            # the race detector had already reported a race inside the library when the process died
+            return [], 0, {}, lib, ""
         if _library_fatal(out):
             # the Go runtime itself aborted the process: unsynchronised map access inside the library
             return [], 0, {}, lib, out
@@ -195,6 +203,48 @@ def registry_proofs(ctx, d):
     return info
 
 
+def _validate_model_logs(mlog, d):
+    """RegistryTrace over the model's behaviours, split at 'init' lines into files of <= 40 MB, NCPU at a time."""
+    import concurrent.futures
+    parts = []
+    cur = None
+    size = 0
+    with open(mlog) as f:
+        for line in f:
+            if cur is None or (size > 40000000 and '"ev": "init"' in line):
+                if cur:
+                    cur.close()
+                parts.append(os.path.join(d, "mlog%d.ndjson" % len(parts)))
+                cur = open(parts[-1], "w")
+                size = 0
+            cur.write(line)
+            size += len(line)
+    if cur:
+        cur.close()
+    recs, nl, cmp_ = [], 0, {}
+
+    def one(ip):
+        i, p = ip
+        sd = os.path.join(d, "mv%d" % i)
+        os.makedirs(sd)
+        r = vlib.validate_shard((sd, 0, p, "RegistryTrace", 1800))
+        shutil.rmtree(sd, ignore_errors=True)
+        return r
+    with concurrent.futures.ThreadPoolExecutor(max_workers=vlib.NCPU) as ex:
+        for r in ex.map(one, list(enumerate(parts))):
+            if "error" in r:
+                raise Infra(r["error"])
+            recs += r["recs"]
+            nl += r["lines"]
+            for k, v in r.get("compared", {}).items():
+                cmp_[k] = cmp_.get(k, 0) + v
+    for p in parts:
+        os.remove(p)
+    vlib.LAST_COMPARED.clear()
+    vlib.LAST_COMPARED.update(cmp_)
+    return recs, nl
+
+
 def registry_phase(ctx):
     """C17 concurrency: forced schedules from MCRegistry (run sequentially, in the model's linearization order),
     free-running stress with a quiescent read-back; everything under the race detector; the call/return log is
@@ -209,19 +259,24 @@ def registry_phase(ctx):
     mlog = os.path.join(d, "modellog.ndjson")
     nmodel = 0
     with open(inp, "w") as f, open(mlog, "w") as ml:
-        for ps in ["rw", "ww", "mix"]:
+        # With call and return as steps that read the clock the six-operation program sets have four to six million
+        # states each (thorough tier); the quick tier checks the clocked model on five-operation sets and uses the
+        # six-operation sets without the clock (a few thousand states) to enumerate their linearization orders.
+        runs = [("s1", True), ("s2", True), ("s3", True)] + [(ps, tier != "quick") for ps in ("rw", "ww", "mix")]
+        for ps, stamp in runs:
             md = os.path.join(d, "mc-" + ps)
             vlib.copy_spec(md)
             genf = os.path.join(md, "gen.ndjson")
             logf = os.path.join(md, "log.ndjson")
+            open(logf, "w").close()
             with open(os.path.join(md, "MCRegistry.cfg"), "w") as c:
                 c.write("SPECIFICATION Spec\nCONSTANTS\n  Procs <- MCProcs\n  Prog <- MCProg\n  Builtins <- MCBuiltins\n"
-                        "  ProgSet = \"%s\"\n  GenFile = \"%s\"\n  LogFile = \"%s\"\nINVARIANT Inv\nACTION_CONSTRAINT EmitDone\n"
-                        "ACTION_CONSTRAINT EmitLog\nCHECK_DEADLOCK FALSE\n" % (ps, genf, logf))
-            g, dist, _ = vlib.run_tlc(md, "MCRegistry", workers=4, timeout=900)
+                        "  ProgSet = \"%s\"\n  Stamp = %s\n  GenFile = \"%s\"\n  LogFile = \"%s\"\nINVARIANT Inv\nACTION_CONSTRAINT EmitDone\n"
+                        "ACTION_CONSTRAINT EmitLog\nCHECK_DEADLOCK FALSE\n" % (ps, "TRUE" if stamp else "FALSE", genf, logf))
+            g, dist, _ = vlib.run_tlc(md, "MCRegistry", workers=8, timeout=1800)
             ctx["states"] += dist
             ctx["transitions"] += g
-            ctx["mc_info"].append({"module": "MCRegistry", "constants": {"ProgSet": ps}, "distinct_states": dist, "states_generated": g})
+            ctx["mc_info"].append({"module": "MCRegistry", "constants": {"ProgSet": ps, "Stamp": stamp}, "distinct_states": dist, "states_generated": g})
             for line in open(genf):
                 # (one line per complete behaviour; behaviours that differ only in when locks were taken and
                 # released share their linearization order)
@@ -232,8 +287,10 @@ def registry_phase(ctx):
                     if nforced % 97 == 1 and len(ctx["samples"]) < 8:
                         ctx["samples"].append({"source": "MCRegistry forced schedule", "scenario": json.loads(json.loads(line))})
             # the same behaviours as an observer outside the lock logs them (call / return lines in clock order)
-            for line in open(logf):
-                if line.strip():
+            # (every behaviour of the small sets; one in ten of the half million of each large set)
+            step = 10 if ps in ("rw", "ww", "mix") else 1
+            for k, line in enumerate(open(logf)):
+                if line.strip() and k % step == 0:
                     for ev in json.loads(json.loads(line)):
                         ev["scen"] = "m%d" % nmodel
                         ml.write(json.dumps(ev) + "\n")
@@ -248,7 +305,7 @@ def registry_phase(ctx):
     # lines, must be accepted by the trace specification that judges the real registry (else that one is too strict)
     if nmodel == 0:
         raise Infra("MCRegistry wrote no behaviour log")
-    mrecs, mnl = vlib.validate(mlog, d, module="RegistryTrace", nshards=1)
+    mrecs, mnl = _validate_model_logs(mlog, d)
     if mrecs:
         raise Infra("RegistryTrace.tla rejects a behaviour of the design model Registry.tla (the trace specification is too strict): %s"
                     % json.dumps(mrecs[0])[:800])
@@ -277,14 +334,16 @@ def registry_phase(ctx):
         log("MISMATCH the race detector / Go runtime reported %s inside the library during the registry runs; first:\n%s" % (what, text[:1500]))
         viol.append(_phase_artifact(ctx, "C17-race.json", "registry", text))
     if recs:
-        # reproduce: the sequential parts (forced schedules, read-back) must show again; stress may need retries
+        # The validated log is itself a record of what the real registry did. Mismatches of the sequential parts
+        # (forced schedules, read-back) show again in a rerun; those of a free-running part need their schedule,
+        # so a rerun is informative only.
         again = []
-        for k in range(5):
-            again, _, _, _, f2 = _registry_run(ctx, vdr, d, inp, "b%d" % k)
-            if again or f2:
+        for k in range(3):
+            again, _, _, l2, f2 = _registry_run(ctx, vdr, d, inp, "b%d" % k)
+            if again or l2 or f2:
                 break
         if not again:
-            raise Infra("registry mismatch (%s) did not reproduce in 5 reruns" % json.dumps(recs[0])[:500])
+            log("NOTE the registry mismatch did not show again in 3 reruns (it depends on the schedule); the recorded log lines are kept in the replay file")
         facets = sorted({r["facet"] for r in recs})
         log("MISMATCH registry facets=%s first=%s" % (facets, json.dumps(recs[0])[:800]))
         viol.append(_phase_artifact(ctx, "C17-registry.json", "registry", "", {"mismatches": recs[:20]}))
